@@ -1,5 +1,7 @@
 package j5sgen
 
+import "fmt"
+
 // Hand-written packages that run before the generated ones: the README examples and the
 // minimal inputs of defects found so far (so that a regression is reported with a small input).
 
@@ -75,6 +77,37 @@ func Corpus() []CorpusCase {
 		file(foo, "a", object("BarRequest", prop("x", str("string"))), object("User", prop("r", objRef("", "BarRequest")))),
 		file(foo, "b", &Element{Kind: "service", Service: &Service{Name: "Foo", Methods: []*Method{{
 			Name: "Bar", Verb: "POST", Path: "/bar", Request: []*Property{prop("fooId", str("string"))}}}}}))
+	// optional arrays and maps (fix d536c9b: plain repeated fields, not proto3_optional; known-findings audit L128)
+	add("optional-array-map", "foo.v1", file(foo, "a",
+		object("Foo",
+			&Property{Name: "tags", Optional: true, F: &Field{Kind: "array", Item: str("string")}},
+			&Property{Name: "labels", Optional: true, F: &Field{Kind: "map", Item: str("string")}},
+			&Property{Name: "kids", Optional: true, F: &Field{Kind: "array", Item: obj(prop("kidId", key("id62")))}},
+			&Property{Name: "byName", Optional: true, F: &Field{Kind: "map", Item: obj(prop("v", str("string")))}},
+			&Property{Name: "note", Optional: true, F: str("string")},
+			prop("plain", &Field{Kind: "array", Item: str("string")}))))
+	// two imports without alias that claim the same short name: the short name means the package imported last
+	for k := 0; k < 6; k++ {
+		v1, v2 := []string{"foo", "v1"}, []string{"foo", "v2"}
+		if k%2 == 1 {
+			v1, v2 = []string{"acme", "baz", "v2"}, []string{"acme", "baz", "v3"}
+		}
+		first, second := v1, v2
+		if k >= 3 {
+			first, second = v2, v1
+		}
+		short := first[len(first)-2]
+		user := &File{Dir: []string{"zed", "v1"}, Base: "a",
+			Imports: []*Import{{Path: joinStr(first, ".")}, {Path: joinStr(second, ".")}},
+			Elements: []*Element{object("User",
+				prop("own", objRef(joinStr(first, "."), "OnlyFirst")),
+				prop("thing", objRef(short, "Thing")),
+				prop("things", &Field{Kind: "array", Item: objRef(short, "Thing")}))}}
+		add(fmt.Sprintf("import-later-wins-%d", k), "zed.v1",
+			file(first, "a", object("Thing", prop("a", str("string"))), object("OnlyFirst", prop("x", str("string")))),
+			file(second, "a", object("Thing", prop("b", str("string")))),
+			user)
+	}
 	// outside the language, accepted by the compiler: repeated / optional / required members of a oneof
 	oneofEl := func(ps ...*Property) *Element {
 		return &Element{Kind: "oneof", N: &Nested{Kind: "oneof", Name: "Ch", Props: ps}}
@@ -138,6 +171,13 @@ type EditPair struct {
 	Before, After *Bundle
 	Pkg           string
 	Edits         []EditRec
+	// KnownNoEmbed: the pair of a known finding - the old descriptors do NOT embed into the new ones
+	KnownNoEmbed bool
+}
+
+func emptyEnum(opts ...string) *Bundle {
+	return &Bundle{Files: []*File{file([]string{"foo", "v1"}, "a",
+		&Element{Kind: "enum", N: &Nested{Kind: "enum", Name: "Status", Enum: &Enum{Name: "Status", Opts: opts}}})}}
 }
 
 // EditCorpus: hand-written before/after pairs for C13.
@@ -154,8 +194,12 @@ func EditCorpus() []EditPair {
 	fooP := prop("foo", obj())
 	return []EditPair{
 		{mk(), plain, "foo.v1", []EditRec{{"field", "foo/v1/a.j5s:Foo", "age scalar", "EAppendField 0 0 " + age.Coq()},
-			{"option", "foo/v1/a.j5s:Status", "INACTIVE", "EAppendOption 0 1 " + S("INACTIVE")}}},
+			{"option", "foo/v1/a.j5s:Status", "INACTIVE", "EAppendOption 0 1 " + S("INACTIVE")}}, false},
 		// defect: the appended inline type Foo.Foo captures the relative name Foo.X of the existing field
-		{mk(), mk(fooP), "foo.v1", []EditRec{{"field", "foo/v1/a.j5s:Foo", "foo objinline", "EAppendIn 0 0 AtDecl [] (AField " + fooP.Coq() + ")"}}},
+		{mk(), mk(fooP), "foo.v1", []EditRec{{"field", "foo/v1/a.j5s:Foo", "foo objinline", "EAppendIn 0 0 AtDecl [] (AField " + fooP.Coq() + ")"}}, false},
+		// known finding: an enum without options; the appended option is its first, ends in UNSPECIFIED
+		// and therefore replaces the implicit zero value STATUS_UNSPECIFIED by STATUS_OLD_UNSPECIFIED
+		{emptyEnum(), emptyEnum("OLD_UNSPECIFIED"), "foo.v1",
+			[]EditRec{{"option", "foo/v1/a.j5s:Status", "OLD_UNSPECIFIED", "EAppendOption 0 0 " + S("OLD_UNSPECIFIED")}}, true},
 	}
 }
